@@ -27,6 +27,42 @@ def _queue(q):
     return [[int(c), _num(r), int(s)] for c, r, s in q]
 
 
+def deployed_in_files(cfg, m, site_id, site_type):
+    """whether method `m` is deployed at the site according to the INPUT FILES: the sites file column
+    `<m>_site_deployment` where it has a value, else the same column of the site type file, else deployed"""
+    col = f"{m}_site_deployment"
+    sv = (cfg.get("site_extra_cols") or {}).get(col) or {}
+    v = sv.get(str(site_id), sv.get(site_id, ""))
+    if str(v).upper() in ("TRUE", "FALSE"):
+        return str(v).upper() == "TRUE"
+    tv = ((cfg.get("site_type_extra_cols") or {}).get(col) or {}).get(site_type, "")
+    if str(tv).upper() in ("TRUE", "FALSE"):
+        return str(tv).upper() == "TRUE"
+    return True
+
+
+def configured_sites(cfg, m, kind, st):
+    """the planners' parameters according to the run's own CONFIGURATION (method parameter file + input
+    files), never according to the Site objects / planners the simulator built"""
+    mcfg = (cfg.get("methods") or {}).get(m)
+    types = {int(s_["id"]): s_.get("type") for s_ in cfg.get("sites", [])}
+    known = {f"{m}_site_deployment"}
+    foreign = [c for c in list(cfg.get("site_extra_cols") or {}) + list(cfg.get("site_type_extra_cols") or {})
+               if c.startswith(m + "_") and c not in known]
+    out = []
+    for x in st:
+        if mcfg is None or foreign or kind == "followup":
+            # per-site overrides this stage does not interpret: fall back to what the planner holds
+            out.append({"id": x["site"], "freq": (x["rs"] if x["rs"] else None), "deploy": x["rs"] > 0,
+                        "months": x["months"], "years": x["dep_years"], "S": x["S"]})
+            continue
+        dep = deployed_in_files(cfg, m, x["site"], types.get(x["site"]))
+        out.append({"id": x["site"], "freq": None if kind == "stationary" else mcfg.get("surveys_per_year"),
+                    "deploy": dep, "months": list(mcfg.get("months", x["months"])),
+                    "years": list(mcfg.get("years") or []), "S": x["S"]})
+    return out
+
+
 def build(cfg, events):
     """events of one (program, simulation) -> {method: (case, static, trace, extra)}"""
     start = date(*cfg["start"])
@@ -42,8 +78,7 @@ def build(cfg, events):
             case = {"kind": kind, "method_class": "wholerun", "start": cfg["start"], "end": cfg["end"],
                     "crews": crews, "cap": cap if kind != "stationary" else len(st), "_cap_used": cap,
                     "T": None, "hours": None, "ndays": 0, "weather": [],
-                    "sites": [{"id": x["site"], "freq": (x["rs"] if x["rs"] else None), "deploy": x["rs"] > 0,
-                               "months": x["months"], "years": x["dep_years"], "S": x["S"]} for x in st]}
+                    "sites": configured_sites(cfg, m, kind, st)}
             if kind == "stationary":
                 case["_cap_used"] = len(st)
             out[m] = {"case": case, "static": st, "trace": [], "prev_rep": {x["site"]: None for x in st},
@@ -132,6 +167,10 @@ def followup_oracle(ctx, prop, cfgkey, m, info):
             r = reps.get(i)
             if (cls == 1) != (r is not None and r[0] == 1):
                 ctx.violate(prop + ":wholerun:class-state", f"follow-up site {i}: class {cls}, report {r}", inp)
+            # "interrupted" from the history (minutes booked on a report that is not complete), not from the flag
+            if (cls == 1) != (r is not None and r[1] > 0):
+                ctx.violate(prop + ":wholerun:interrupted-survey-not-in-class-1",
+                            f"follow-up site {i}: {0 if r is None else r[1]} minutes surveyed, class {cls}", inp)
         ctx.count("wholerun_followup_days")
 
 
@@ -161,7 +200,8 @@ def analyse(ctx, prop, cfg, res, oracle):
         per = build(cfg, tr["events"])
         for m, info in per.items():
             case, static, trace = info["case"], info["static"], info["trace"]
-            tag = {"wholerun": {"cfg_seed": cfg.get("_verif_seed"), "program": tr["prog"], "sim": tr["sim"], "method": m}}
+            tag = {"wholerun": {"cfg_seed": cfg.get("_verif_seed"), "program": tr["prog"], "sim": tr["sim"], "method": m,
+                                "two_run": cfg.get("_two_run")}}
             case = dict(case, **tag)
             mcfg = (cfg.get("methods") or {}).get(m, {})
             if prop == "C06" and mcfg:
@@ -216,14 +256,80 @@ def configs(ctx, n):
         rng = random.Random(seed)
         cfg = W.make_config(rng, ndays=rng.choice([150, 250, 400, 500]), n_sites=rng.randint(4, 9))
         cfg["_verif_seed"] = seed
+        deploy_columns(rng, cfg)       # deployment flags through the real intake, from both input files
         out.append(cfg)
     return out
 
 
-def run_all(ctx, prop, oracle):
+def deploy_columns(rng, cfg):
+    """`<method>_site_deployment` columns in BOTH the sites file and the site type file (TRUE / FALSE / blank)
+    for every routine / stationary method of the configuration; at least one site stays deployed"""
+    used = {m for p in cfg["programs"] for m in p["methods"]}
+    sx, tx = dict(cfg.get("site_extra_cols") or {}), dict(cfg.get("site_type_extra_cols") or {})
+    ids = [s_["id"] for s_ in cfg["sites"]]
+    types = sorted({s_["type"] for s_ in cfg["sites"]})
+    for m in sorted(used):
+        if cfg["methods"][m].get("is_follow_up"):
+            continue
+        col = f"{m}_site_deployment"
+        tvals = {t: rng.choice(["TRUE", "FALSE", "", "FALSE"]) for t in types}
+        svals = {str(i): rng.choice(["", "", "", "TRUE", "FALSE"]) for i in ids}
+        svals[str(rng.choice(ids))] = "TRUE"      # a site switched on against / without its type
+        tx[col], sx[col] = tvals, svals
+    cfg["site_extra_cols"], cfg["site_type_extra_cols"] = sx, tx
+    return cfg
+
+
+def two_run_cfgs(seed):
+    """run 1 and run 2 of one input / generator folder: run 2 edits method parameters that propagate to the
+    sites (surveys per year, deployment months, deployment years, site deployment) and keeps every label"""
     from harness import wholerun as W
 
-    cfgs = configs(ctx, ctx.pick(1 if prop == "C07" else 2, 10))   # C07 quick runs two more in mode_stage
+    rng = random.Random(seed)
+    cfg1 = W.make_config(rng, ndays=rng.choice([200, 300]), n_sites=rng.randint(4, 6))
+    cfg1["_verif_seed"] = seed
+    deploy_columns(rng, cfg1)
+    import copy as _copy
+
+    cfg2 = _copy.deepcopy(cfg1)
+    for m, mc in cfg2["methods"].items():
+        if mc.get("is_follow_up"):
+            continue
+        if "surveys_per_year" in mc:
+            mc["surveys_per_year"] = rng.choice([x for x in (1, 2, 3, 4, 6, 12) if x != mc["surveys_per_year"]])
+        if mc.get("deployment_type") == "mobile":
+            mc["months"] = rng.choice([mm for mm in ([5, 6, 7, 8, 9], [1, 2, 3], list(range(1, 13)), [3, 4, 10, 11])
+                                      if mm != mc["months"]])
+            if rng.random() < 0.5:
+                mc["years"] = [cfg2["start"][0]]
+    deploy_columns(rng, cfg2)
+    return cfg1, cfg2
+
+
+def two_run_stage(ctx, prop, oracle, seeds):
+    """LESSONS 1 / 5 on whole runs: a second simulation on the same input and generator folder with edited
+    method parameters (same labels) must follow ITS OWN parameter files"""
+    import shutil
+    import tempfile
+    from harness import wholerun as W
+
+    for seed in seeds:
+        cfg1, cfg2 = two_run_cfgs(seed)
+        wd = tempfile.mkdtemp(prefix="ldarverif_two_")
+        try:
+            for k, cfg in ((1, cfg1), (2, cfg2)):
+                cfg["_two_run"] = k
+                res = W.run_config(cfg, workdir=wd, keep_inputs=(k == 2))
+                analyse(ctx, prop, cfg, res, oracle)
+                ctx.count(f"two_run_histories_run{k}")
+        finally:
+            shutil.rmtree(wd, ignore_errors=True)
+
+
+def run_all(ctx, prop, oracle, cfgs=None):
+    from harness import wholerun as W
+
+    cfgs = cfgs if cfgs is not None else configs(ctx, ctx.pick(1, 10 if prop == "C07" else 8))   # quick: C07 runs two more in mode_stage, C06 a two-run history
 
     def one(cfg):
         return cfg, W.run_config(cfg)
@@ -294,7 +400,14 @@ def run_c06(ctx):
     from harness.props import c06
 
     orc = lambda c, case, static, trace: c06.oracle_trace(c, case, static, trace)  # noqa: E731
-    run_all(ctx, "C06", orc)
+    cfgs = configs(ctx, ctx.pick(1, 8))                                   # drawn here: the seeds stay reproducible
+    seeds = [ctx.rng.randrange(1 << 30) for _ in range(ctx.pick(1, 4))]
+    with concurrent.futures.ThreadPoolExecutor(max_workers=2) as ex:
+        # the plain configurations and the two-run histories side by side (each is mostly a child process)
+        f1 = ex.submit(run_all, ctx, "C06", orc, cfgs)
+        f2 = ex.submit(two_run_stage, ctx, "C06", orc, seeds)
+        f1.result()
+        f2.result()
     if not ctx.quick:
         mode_stage(ctx, "C06", orc, 2)
 
@@ -304,6 +417,25 @@ def _replay(ctx, prop, inp):
 
     w = inp.get("wholerun") or inp.get("case", {}).get("wholerun")
     seed = w.get("cfg_seed", w.get("seed_cfg"))
+    if w.get("two_run"):
+        import shutil
+        import tempfile
+        from harness import wholerun as W
+        from harness.props import c06 as _c06, c07 as _c07
+        orc = (lambda c, case, static, trace: _c07.oracle_trace(c, case, trace, static=static)) if prop == "C07" else \
+            (lambda c, case, static, trace: _c06.oracle_trace(c, case, static, trace))
+        cfg1, cfg2 = two_run_cfgs(seed)
+        wd = tempfile.mkdtemp(prefix="ldarverif_two_")
+        try:
+            for k, cfg in ((1, cfg1), (2, cfg2)):
+                cfg["_two_run"] = k
+                res = W.run_config(cfg, workdir=wd, keep_inputs=(k == 2))
+                analyse(ctx, prop, cfg, res, orc)
+        finally:
+            shutil.rmtree(wd, ignore_errors=True)
+        for v in ctx.violations:
+            print("oracle:", v["signature"], "-", v["what"])
+        return 1 if (ctx.violations or ctx.disagreements) else 0
     if w.get("mode"):
         # re-run the debug / pool comparison of that configuration
         class _R:
@@ -328,6 +460,7 @@ def _replay(ctx, prop, inp):
     rng = random.Random(seed)
     cfg = W.make_config(rng, ndays=rng.choice([150, 250, 400, 500]), n_sites=rng.randint(4, 9))
     cfg["_verif_seed"] = seed
+    deploy_columns(rng, cfg)
     res = W.run_config(cfg)
     try:
         if prop == "C07":
